@@ -144,6 +144,14 @@ def enumerate_cases(tier, seed):
         for t2, vs in (("Qint2", (0, 1, 2, 3)), ("Qint4", (0, 5, 6)), ("Qint8", (7,))):
             for v in vs:
                 cases.append(("qfixed", "mul", t1, t2, "SC", None, v))
+    # the constant on the left, the method looked up on the Qfixed type (translate_expression
+    # dispatches `3 * a` to the Qfixed operand's mul), and non-constant multipliers (rejected)
+    for t1 in qf:
+        for t2, vs in (("Qint2", (0, 3)), ("Qint4", (5,))):
+            for v in vs:
+                cases.append(("qfixed", "rmul", t2, t1, "CS", v, None))
+        cases.append(("qfixed", "rmul", "Qint2", t1, "SS", None, None))
+        cases.append(("qfixed", "mul", t1, "Qint2", "SS", None, None))
     # ---- Qchar
     for op in ("eq", "neq"):
         cases.append(("qchar", op, "Qchar", "Qchar", "SS", None, None))
@@ -407,8 +415,6 @@ def _expected(fam, op, T1, T2, k):
             f = dict(eq=lambda x, y: int(x == y), neq=lambda x, y: int(x != y), gt=lambda x, y: int(x > y),
                      lt=lambda x, y: int(x < y), lte=lambda x, y: int(x <= y), gte=lambda x, y: int(x >= y))[op]
             sop = dict(eq="SEq", neq="SNeq", gt="SGt", lt="SLt", lte="SLte", gte="SGte")[op]
-            if tag == "qchar-qint":
-                sop = None    # no theorem: the model itself is wrong there (zip truncation)
             return f, "bool", sop, rd, 1, tag
         if op == "add":
             return (lambda x, y: (x + y) % (1 << w)), wider.__name__, f"(SAdd {w}%nat)", rd, w, tag
@@ -429,44 +435,37 @@ def _expected(fam, op, T1, T2, k):
                    bitwise_xor=(lambda x, y: x ^ y, "SXor"))[op]
         rt = T1 if w2 < w1 else T2
         return bop[0], rt.__name__, bop[1], rd, w, tag
+    if fam == "qfixed" and op == "rmul":
+        i2, f2 = T2.BIT_SIZE_INTEGER, T2.BIT_SIZE_FRACTIONAL
+        w = i2 + f2
+        rf = f"(RFix {i2}%nat 0%nat)"
+        return (lambda x, y: (x * y) % (1 << w)), T2.__name__, f"(SMul {w}%nat)", ("RInt", rf, rf), w, "qfixed-same"
     if fam == "qfixed":
         i1, f1 = T1.BIT_SIZE_INTEGER, T1.BIT_SIZE_FRACTIONAL
         if op == "mul":
             w = i1 + f1
-            return (lambda x, y: (x * y) % (1 << w)), T1.__name__, f"(SMul {w}%nat)", (f"(RFix {i1}%nat)", "RInt", f"(RFix {i1}%nat)"), w, "qfixed-same"
+            rf = f"(RFix {i1}%nat 0%nat)"
+            return (lambda x, y: (x * y) % (1 << w)), T1.__name__, f"(SMul {w}%nat)", (rf, "RInt", rf), w, "qfixed-same"
         i2, f2 = T2.BIT_SIZE_INTEGER, T2.BIT_SIZE_FRACTIONAL
-        same = T1 is T2
-        rd = (f"(RFix {i1}%nat)", f"(RFix {i2}%nat)", None)
-        if same:
-            w = i1 + f1
-            rdo = (rd[0], rd[1], f"(RFix {i1}%nat)")
-            if op in CMP:
-                f = dict(eq=lambda x, y: int(x == y), neq=lambda x, y: int(x != y), gt=lambda x, y: int(x > y),
-                         lt=lambda x, y: int(x < y), lte=lambda x, y: int(x <= y), gte=lambda x, y: int(x >= y))[op]
-                sop = dict(eq="SEq", neq="SNeq", gt="SGt", lt="SLt", lte="SLte", gte="SGte")[op]
-                return f, "bool", sop, (rd[0], rd[1], "RInt"), 1, "qfixed-same"
-            if op == "add":
-                return (lambda x, y: (x + y) % (1 << w)), T1.__name__, f"(SAdd {w}%nat)", rdo, w, "qfixed-same"
-            return (lambda x, y: (x - y) % (1 << w)), T1.__name__, f"(SSub {w}%nat)", rdo, w, "qfixed-same"
-        # different Qfixed types: the meaning on the rationals x / 2^f1, y / 2^f2
-        rt = T1 if T1.BIT_SIZE >= T2.BIT_SIZE else T2
-        ir, fr = rt.BIT_SIZE_INTEGER, rt.BIT_SIZE_FRACTIONAL
-        F = max(f1, f2, fr)
-        s1, s2, sr = F - f1, F - f2, F - fr
+        # operands of different Qfixed types are aligned to the shipped type (max i, max f);
+        # the meaning is stated on the values at the common scale 2^max(f1, f2)
+        ir, fr = max(i1, i2), max(f1, f2)
+        s1, s2 = fr - f1, fr - f2
+        w = ir + fr
+        from qlasskit.types.qfixed import QFIXED_TYPES
+        common = [t for t in QFIXED_TYPES if t.BIT_SIZE_INTEGER == ir and t.BIT_SIZE_FRACTIONAL == fr]
+        rt_name = common[-1].__name__ if common else None
+        tag = "qfixed-same" if T1 is T2 else "qfixed-mixed"
+        rl, rr, ro = f"(RFix {i1}%nat {s1}%nat)", f"(RFix {i2}%nat {s2}%nat)", f"(RFix {ir}%nat 0%nat)"
         if op in CMP:
             cmpf = dict(eq=lambda a, b: a == b, neq=lambda a, b: a != b, gt=lambda a, b: a > b,
                         lt=lambda a, b: a < b, lte=lambda a, b: a <= b, gte=lambda a, b: a >= b)[op]
-            return (lambda x, y: int(cmpf(x << s1, y << s2))), "bool", None, (rd[0], rd[1], "RInt"), 1, "qfixed-mixed"
-        sign = 1 if op == "add" else -1
-        lowmask = (1 << sr) - 1
-        modr = 1 << (ir + fr)
-
-        def farith(x, y):
-            r = (x << s1) + sign * (y << s2)
-            if r & lowmask:
-                return None      # not representable in the result type: no requirement
-            return (r >> sr) % modr
-        return farith, rt.__name__, None, (rd[0], rd[1], f"(RFix {ir}%nat)"), ir + fr, "qfixed-mixed"
+            sop = dict(eq="SEq", neq="SNeq", gt="SGt", lt="SLt", lte="SLte", gte="SGte")[op]
+            # x, y are read at the common scale (the readings carry the shifts)
+            return (lambda x, y: int(cmpf(x, y))), "bool", sop, (rl, rr, "RInt"), 1, tag
+        if op == "add":
+            return (lambda x, y: (x + y) % (1 << w)), rt_name, f"(SAdd {w}%nat)", (rl, rr, ro), w, tag
+        return (lambda x, y: (x - y) % (1 << w)), rt_name, f"(SSub {w}%nat)", (rl, rr, ro), w, tag
     raise ValueError(fam)
 
 
@@ -501,12 +500,15 @@ def do_case(args):
                 call = lambda: T1.shift_right(tl, v2)
                 opc = f"(OpUn (UShr {v2}%nat))"
         elif fam in ("qint", "qfixed", "qchar", "qbool", "mixed"):
-            tl, ln = _mk_operand(T1, shape[0], "a", v1, fam)
+            tl, ln = _mk_operand(T1, shape[0], "a", v1, "qint" if (fam == "qfixed" and op == "rmul") else fam)
             tr, rn = _mk_operand(T2, shape[1], "b", v2, "qint" if (fam == "qfixed" and op == "mul") else fam)
             if fam == "qbool":
                 from qlasskit.types import Qbool
                 call = lambda: getattr(Qbool, op)(tl, tr)
                 opc = "OpBoolEq" if op == "eq" else "OpBoolNeq"
+            elif op == "rmul":     # T2.mul(tl, tr): the Qfixed class with the Qint operand on the left
+                call = lambda: T2.mul(tl, tr)
+                opc = f"(OpBin {_ty_coq(T2)} OMul)"
             else:
                 call = lambda: getattr(T1, op)(tl, tr)
                 opc = f"(OpBin {_ty_coq(T1)} {COQ_BINOP[op]})"
@@ -602,7 +604,7 @@ def do_case(args):
             cv = v1 if shape[0] == "C" else v2
             if cv % 2 == 0 and bin(cv).count("1") > 3:
                 model_ok = False
-        if fam == "qfixed" and op == "mul" and v2 > 3:
+        if fam == "qfixed" and op in ("mul", "rmul") and shape != "SS" and (v2 if op == "mul" else v1) > 3:
             model_ok = False
         if fam == "nonwf" and op == "mul" and max(v1, v2, T1.BIT_SIZE, T2.BIT_SIZE) > P["model_mul_max"]:
             model_ok = False
@@ -620,9 +622,11 @@ def do_case(args):
                 if t[0] is bool:
                     return _column_values([eval_tables([t[1]], env, mask)[0]], nslots)
                 lst = list(t[1])
+                shift = 0
                 if reading.startswith("(RFix"):
                     lst = _qrepr(lst, t[0].BIT_SIZE_INTEGER)
-                return _column_values(eval_tables(lst, env, mask), nslots)
+                    shift = int(reading.split()[2].replace("%nat)", "").replace("%nat", ""))
+                return [v << shift for v in _column_values(eval_tables(lst, env, mask), nslots)]
             xs = opvals(tl, ln, rl)
             ys = opvals(tr, rn, rr)
             otabs = tabs
@@ -677,6 +681,8 @@ def do_case(args):
             if not ok or rtype is not exp_t:
                 out["direct"] = dict(cls="fillcrop", family=fam, op=op, left=t1, right=t2,
                                      type=dict(returned_type=rtype.__name__, bits=len(outs)))
+        elif raised is not None and fam == "qfixed" and op in ("mul", "rmul") and shape == "SS":
+            pass     # a non-constant multiplier: rejection is the documented behaviour
         elif raised is not None and fam in ("qint", "qfixed", "qchar", "qbool", "unary", "const", "fillcrop"):
             # every case here has well-formed operands of types the method is documented for
             out["direct"] = dict(cls="raised:" + fam + ":" + op, family=fam, op=op, left=t1, right=t2, shape=shape,
